@@ -7,7 +7,10 @@
 (* A command is a record                                                    *)
 (*   [op, dsel ("none"|"today"|"yesterday"|"tomorrow"|"date"), date, time,  *)
 (*    round, summary (lines), resume, nth, entry (lines), should, notags,   *)
-(*    extend, ticks (seconds since `now')]                                  *)
+(*    extend, ticks (seconds since `now'), edits]                           *)
+(* edits[k] is what the environment (an editor, a second klog process)      *)
+(* appends to the file while `pause' sleeps before its k-th clock reading   *)
+(* ("" = nothing): the file is the only state, every iteration re-reads it. *)
 (* now = [ord, min, sec]; cfg = [datefmt, timeconv, rounding, should].      *)
 (*                                                                          *)
 (* Model(cmd, R, now, cfg) gives the verdict of the abstract model:         *)
@@ -18,7 +21,14 @@ EXTENDS KParse, KRecord
 
 NoCmd == [op |-> "none", dsel |-> "none", date |-> "", time |-> "", round |-> 0, summary |-> <<>>,
           resume |-> FALSE, nth |-> 0, entry |-> <<>>, should |-> "", notags |-> FALSE, extend |-> FALSE,
-          ticks |-> <<>>]
+          ticks |-> <<>>, edits |-> <<>>]
+
+EditAt(cmd, k) == IF k <= Len(cmd.edits) THEN cmd.edits[k] ELSE ""
+(* the environment's action: a further record is appended after a blank line *)
+ExtAppend(text, e) == IF e = "" THEN text
+                      ELSE text \o (IF text = "" \/ EndsWith(text, "\n") THEN "\n" ELSE "\n\n") \o e
+RECURSIVE ExtAppendAll(_, _, _)
+ExtAppendAll(text, cmd, k) == IF k = 0 THEN text ELSE ExtAppend(ExtAppendAll(text, cmd, k - 1), EditAt(cmd, k))
 
 TargetOrd(cmd, now) ==
     CASE cmd.dsel = "date" -> ParseDate(cmd.date).ord
